@@ -367,16 +367,20 @@ def _worker_shard(args):
 
 
 _HIDDEN = None
+_HIDDEN0 = None
 LIB_MODULES = ('bitcoin', 'bitcoin.core', 'bitcoin.core.serialize', 'bitcoin.core.script', 'bitcoin.core.scripteval', 'bitcoin.core.key',
                'bitcoin.core._bignum', 'bitcoin.base58', 'bitcoin.bech32', 'bitcoin.segwit_addr', 'bitcoin.wallet', 'bitcoin.signmessage',
                'bitcoin.signature', 'bitcoin.messages', 'bitcoin.net', 'bitcoin.rpc', 'bitcoin.bloom')
 
 
 def hidden_state_fingerprint():
-    """Sizes of every module-level and class-level mutable container (dict / list / set / bytearray / BytesIO /
-    functools cache) of the library's modules.  BFS keys are extended by it, so two histories are merged only if they also
-    left the library's own process-wide state the same: on the library as it is the value never changes (there is no
-    such state that grows), with a cache or scratch buffer added it keeps apart what the property-level key cannot see."""
+    """Coarse sizes (empty / one entry / more) of every module-level and class-level mutable container (dict / list / set /
+    bytearray / BytesIO / functools cache) of the library's modules, relative to their size at start.  BFS keys are
+    extended by it, so two histories are merged only if they also left the library's own process-wide state in the same
+    class: on the library as it is the value never changes (there is no such state), with a cache or scratch buffer
+    added it keeps apart "nothing cached yet / leftovers present" from "clean" - what the property-level key cannot
+    see.  The projection is deliberately coarse (three classes per container): a *correct* cache that grows with every
+    call must not blow the state space up."""
     global _HIDDEN
     import io
     if _HIDDEN is None:
@@ -406,15 +410,19 @@ def hidden_state_fingerprint():
             out.append(None)
             continue
         if isinstance(v, io.BytesIO):
-            out.append(len(v.getvalue()))
+            n = len(v.getvalue())
         elif hasattr(v, 'cache_info'):
-            out.append(v.cache_info().currsize)
+            n = v.cache_info().currsize
         else:
             try:
-                out.append(len(v))
+                n = len(v)
             except TypeError:
-                out.append(None)
-    return tuple(out)
+                n = None
+        out.append(n)
+    global _HIDDEN0
+    if _HIDDEN0 is None:
+        _HIDDEN0 = tuple(out)
+    return tuple(None if (n is None or b is None) else min(max(n - b, -1), 2) for n, b in zip(out, _HIDDEN0))
 
 
 def _worker_bfs(args):
